@@ -567,6 +567,12 @@ def direction_b(ctx, ntraj):
         # the printed cases carry `rec` = index within the validated chunk; re-number in order of appearance
         cases = [c for c in res.cases if c.get("kind") == "trace"]
         accepted = [i for i in range(len(recs)) if i not in rejected]
+        if rejects:
+            # the trace was rejected (violations recorded above); after a rejection the validator restarts on the
+            # remainder and the printed cases can no longer be attributed record by record: the term
+            # comparison of this tier's direction-B trajectories is not carried out in this run
+            chk.extra["direction_B"] = {"trajectories": len(recs), "rejected_records": sorted(rejected)}
+            return
         if len(cases) != len(accepted):
             raise common.MachineryError(f"TraceBoo3D printed {len(cases)} cases for {len(accepted)} accepted records")
         for case, i in zip(cases, accepted):
